@@ -13,7 +13,7 @@ EXPLANATION = ("mirsym Mode A: the xorb footer parsers are executed symbolically
                "Kani: parse_chunk_header accepts exactly the documented limits on all 2^64 headers.")
 BOUNDS = "all paths through each parser with every loop entered at most once (max_visits = 2 per block); all 32/64-bit values of the untrusted fields"
 ASSUMPTIONS = ["reader calls (read_u8/u32/u64/hash/bytes, seek) return arbitrary values or errors", "prealloc_num_chunks(n) <= 1152 (checked as its own obligation on that function)",
-               "panics hidden inside callee bodies (e.g. slice indexing inside read helpers) are not seen by these queries"]
+               "panics hidden inside callee bodies (e.g. slice indexing inside read helpers) are not seen by these queries; of the validators' own `get(idx).unwrap()` lookups only the one whose safety depends on a footer field (unpacked offsets, version guard) is an obligation"]
 OUTSIDE = ["truncation at every offset of large xorbs", "LZ4 payload decoders (third party)", "deserialize_chunk over symbolic bytes (std::io::copy did not get through CBMC)",
            "hash recomputation agreement of validate_cas_object (blake3 FFI)"]
 
